@@ -795,6 +795,8 @@ def cli_scenarios(fx: Dict[str, Path]) -> List[Tuple[str, List[str], List[Tuple[
         ("missing-find-links", ["ok.txt", "--no-index", "--find-links", "/nonexistent/c15/links"], [("SBuildRepo", "ERepoInit")]),
         ("missing-source-dir", ["ok.txt", "--no-index", "--source", "/nonexistent/c15/src"], [("SBuildRepo", "EValueError")]),
         ("unannotated-solution", ["ok.txt", "--no-index", "--solution", "unannotated.txt"], [("SBuildRepo", "ERepoInit")]),
+        ("file-as-find-links", ["ok.txt", "--no-index", "--find-links", "ok.txt"], [("SBuildRepo", "EOSError")]),
+        ("dir-as-solution", ["ok.txt", "--no-index", "--find-links", str(fx["links"]), "--solution", str(fx["links"])], [("SBuildRepo", "EOSError")]),
     ]
 
 
@@ -1237,7 +1239,7 @@ def oracle_pages(mods) -> Optional[Dict[str, Any]]:
 
 # scenarios whose failure class the handlers of compile_main cover: diagnostic + exit status 1, no traceback
 CLI_DIAGNOSTIC = ("no-candidate", "bad-metadata", "bad-input-path", "bad-input-syntax", "no-repository",
-                  "missing-find-links", "missing-source-dir", "unannotated-solution")
+                  "missing-find-links", "missing-source-dir", "unannotated-solution", "file-as-find-links", "dir-as-solution")
 
 
 def oracle_cli(ctx: Ctx, only: Optional[Tuple[str, bool]] = None) -> Optional[Dict[str, Any]]:
